@@ -94,6 +94,46 @@ def deleteEcx (os : Nat) (ecx ecj : List Nat) (key : Nat) : List Nat × List Nat
   | none => (ecx, ecj)
   | some ecx' => (ecx', ecj ++ beBytes 8 key)
 
+/-! ### sessions: the journal is a file handle with a write position
+
+`NewEcVolume` opens the .ecj with `O_RDWR|O_CREATE` (no `O_APPEND`): the handle of a new session
+starts at position 0 of the existing journal.  `DeleteNeedleFromEcx` does
+`Seek(0, io.SeekEnd)` and then `Write`, i.e. it writes at the current END of the file. -/
+
+/-- an open EC volume: served index, journal contents, journal handle position -/
+structure Vol where
+  ecx : List Nat
+  ecj : List Nat
+  pos : Nat
+deriving Repr
+
+/-- `NewEcVolume` on existing files -/
+def Vol.reopen (v : Vol) : Vol := { v with pos := 0 }
+
+/-- `Seek(0, io.SeekEnd)`; `Write(b)` -/
+def Vol.journalWrite (v : Vol) (b : List Nat) : Vol :=
+  let p := v.ecj.length
+  { v with ecj := writeAt v.ecj p b, pos := p + b.length }
+
+/-- `DeleteNeedleFromEcx` on a session -/
+def Vol.delete (os : Nat) (v : Vol) (key : Nat) : Vol :=
+  match searchAndMark os v.ecx key with
+  | none => v
+  | some ecx' => Vol.journalWrite { v with ecx := ecx' } (beBytes 8 key)
+
+inductive Ev where
+  | del (key : Nat)
+  | reopen
+deriving Repr
+
+def Vol.step (os : Nat) (v : Vol) : Ev → Vol
+  | .del k => v.delete os k
+  | .reopen => v.reopen
+
+/-- any number of sessions on a fresh EC volume (empty journal) -/
+def Vol.run (os : Nat) (ecx : List Nat) (evs : List Ev) : Vol :=
+  evs.foldl (Vol.step os) ⟨ecx, [], 0⟩
+
 /-- the keys of a journal file: consecutive full 8-byte records -/
 def journalKeys : Nat → List Nat → List Nat
   | 0, _ => []
